@@ -18,7 +18,7 @@ RULE = ("(A) pairs of plain trees with overlapping and disjoint keys at depth <=
         "equal load_tree(model-merged tree) into a fresh configuration, and unresolved includes must fail; "
         "non-trivial = merge pair with an overlapping key, or a file case with >= 1 include processed; distinct = "
         "distinct case content")
-REQUIRED = ("file_cases_denormalised_absolute_names", "file_cases_include_fields_with_friendly_names", "include_field_declared_after_first_use", "file_cases_same_file_included_twice_in_scope", "file_cases_env_bound_include_fields", "file_cases_tilde_below_startdir", "file_cases_with_format_options", "reloads_after_include_files_rewritten", "startdir_form:rel", "startdir_form:home", "nested_schema_declared_before_includes", "merge_pairs_compared", "merge_purity_checks", "file_cases_compared", "file_cases_nested_include",
+REQUIRED = ("file_cases_first_include_field_declared_again_last", "file_cases_start_directory_is_the_file_system_root", "file_cases_denormalised_absolute_names", "file_cases_include_fields_with_friendly_names", "include_field_declared_after_first_use", "file_cases_same_file_included_twice_in_scope", "file_cases_env_bound_include_fields", "file_cases_tilde_below_startdir", "file_cases_with_format_options", "reloads_after_include_files_rewritten", "startdir_form:rel", "startdir_form:home", "nested_schema_declared_before_includes", "merge_pairs_compared", "merge_purity_checks", "file_cases_compared", "file_cases_nested_include",
             "file_cases_chain", "file_cases_unresolvable_rejected", "file_cases_relative_startdir")
 ASSUMPTIONS = ["documents and include files are produced with the library's own codecs (decided by C04)",
                "the merged tree keeps the include key; included files naming an already processed include field of the "
@@ -78,7 +78,7 @@ def generate(rng, ctx):
               "startdir_root": rng.choice([None, "inc"]), "startdir_sub": rng.choice([None, "inc", "other"]),
               "dynamic_sub": rng.random() < 0.3,
               # the schema has an environment prefix and the variables of some include fields name an existing decoy file
-              "env_inc": rng.random() < 0.2, "named_inc": rng.random() < 0.35,
+              "env_inc": rng.random() < 0.2, "named_inc": rng.random() < 0.35, "root_startdir_probe": rng.random() < 0.12, "redeclare_first": rng.random() < 0.25,
               # the nested schema may be declared before the scope's own include fields; start directories may be given
               # absolute, relative to the working directory at load time, or relative to the home directory
               "sub_first": rng.random() < 0.5, "startdir_form": rng.choice(["abs", "abs", "rel", "home"])}
@@ -261,6 +261,10 @@ def _schema(cc, layout, d, early=False):
     else:
         add_includes()
         add_sub()
+    if layout.get("redeclare_first"):
+        # the first include field of each scope is declared a second time, identically, after all the others: it keeps its
+        # place among the scope's include files
+        root.inc0 = cc.IncludeField(startdir=_startdir(layout, d, layout["startdir_root"]), **({"name": "Extra settings file"} if layout.get("named_inc") else {}))
     return root
 
 
@@ -319,10 +323,44 @@ def _model_merged(doc, files, layout, d, cwd):
     return "ok", tree
 
 
+def _root_startdir(cc, ctx, res, fmt, seed):
+    """Include fields whose start directory is the root of the file system: relative names resolve below it."""
+    d = ctx.dir
+    codec = cc.ConfigFormat.get(fmt)
+    schema = cc.Schema()
+    schema.x = cc.IntField(default=0)
+    schema.who = cc.StringField(default="doc")
+    schema.inc = cc.IncludeField(startdir="/" if seed % 2 else "//")
+    schema.sub.y = cc.IntField(default=0)
+    schema.sub.inc = cc.IncludeField(startdir="/")
+    cfg = schema()
+    top, low = os.path.join(d, "rooted-top.cfg"), os.path.join(d, "rooted-sub.cfg")
+    with open(top, "wb") as fp:
+        fp.write(codec.dumps(cfg, {"x": 7, "who": "file"}))
+    with open(low, "wb") as fp:
+        fp.write(codec.dumps(cfg, {"y": 9}))
+    doc = {"who": "document", "inc": top.lstrip("/"), "sub": {"inc": low.lstrip("/")}}
+    res.count("file_cases_start_directory_is_the_file_system_root")
+    try:
+        cfg.loads(codec.dumps(cfg, doc), fmt)
+    except Exception as exc:
+        res.viol("M-include", "root-startdir:raises", "%s: include fields with startdir '/' and the relative names %r / %r (the files exist "
+                 "below '/'): load raised %s: %s" % (fmt, doc["inc"], doc["sub"]["inc"], type(exc).__name__, str(exc)[:160]))
+        return False
+    got = (cfg.x, cfg.who, cfg.sub.y)
+    if got != (7, "file", 9):
+        res.viol("M-include", "root-startdir:state", "%s: include fields with startdir '/': expected x=7 who='file' sub.y=9 from the included "
+                 "files, got x=%r who=%r sub.y=%r" % ((fmt,) + got))
+        return False
+    return True
+
+
 def run_files(case, ctx, res):
     cc = ctx.cc
     d = ctx.dir
     fmt, layout = case["fmt"], case["layout"]
+    if layout.get("root_startdir_probe") and not _root_startdir(cc, ctx, res, fmt, len(case["files"])):
+        return
     os.makedirs(os.path.join(d, "inc"), exist_ok=True)
     os.makedirs(os.path.join(d, "other"), exist_ok=True)
     schema = _schema(cc, layout, d, early=True)
@@ -394,6 +432,8 @@ def run_files(case, ctx, res):
         res.count("file_cases_denormalised_absolute_names")
     if layout.get("named_inc"):
         res.count("file_cases_include_fields_with_friendly_names")
+    if layout.get("redeclare_first"):
+        res.count("file_cases_first_include_field_declared_again_last")
     if "again" in case["inc_kinds"]:
         res.count("file_cases_same_file_included_twice_in_scope")
     res.count("startdir_form:" + layout.get("startdir_form", "abs"))
